@@ -30,9 +30,17 @@ PROPS = {
     ),
     "C20": dict(
         title="Masked selection primitives select exactly as their control word says",
-        verus=[("gf255_m64_lin", None, "quick")],
-        kani=_gf255_k(["k_iszero_equals", "k_cond_select_cswap"]),
+        verus=[("gf255_m64_lin", None, "quick"), ("gf255_m64_lookup", None, "quick")],
+        kani=_gf255_k(["k_iszero_equals", "k_cond_select_cswap"]) + _gf255_k(["k_lookup16", "k_lookup16_x4"], quick_fields=()),
         cases=["gf255_equals"],
+    ),
+    "C10": dict(
+        title="Variable-time fast paths agree with the constant-time reference",
+        verus=[("recode_naf", None, "quick")],
+        kani=[],
+        cases=["jq255e_recode_u128_naf", "jq255s_recode_u128_naf", "ed25519_recode_u128_naf", "secp256k1_recode_u128_naf",
+               "p256_recode_u129_naf", "ed25519_recode_scalar_naf", "jq255e_recode_scalar_naf", "jq255s_recode_scalar_naf",
+               "secp256k1_recode_scalar_naf", "p256_recode_scalar_naf", "ed448_recode_scalar_naf", "ed448_recode_halfwidth_naf"],
     ),
 }
 
